@@ -97,6 +97,11 @@ func runFreeConc(t *testing.T, rc *RunCtx) {
 	if wide {
 		rc.Stats.Inc("free_running_runs_with_wide_batches", 1)
 	}
+	sealedRun := ch.Pick(3, 0) == 1
+	sealed := pop.ByPath("Wallet 2/Sealed").idx
+	if sealedRun {
+		rc.Stats.Inc("free_running_runs_naming_an_account_that_cannot_be_unlocked", 1)
+	}
 	for w := range work {
 		work[w] = genConcOps(rc, nKeys, rounds, false)
 		if wide {
@@ -117,6 +122,30 @@ func runFreeConc(t *testing.T, rc *RunCtx) {
 					o.Entries = append(o.Entries, AttEntry(perm[k], uint64(i), uint64(i+1), uniq))
 				}
 				work[w][i] = o
+			}
+		}
+		if sealedRun {
+			// a third of this run's requests also name (or name only) the account nothing configured opens: the unlocker is
+			// at work on one account for several requests at once
+			for i, o := range work[w] {
+				if ch.Pick(3, 0) != 0 || len(o.Entries) == 0 {
+					continue
+				}
+				var e Entry
+				switch o.Kind {
+				case "att", "atts":
+					e = AttEntry(sealed, uint64(i), uint64(i+1), uint64(w+1)*7_000_000+uint64(i))
+				case "gen", "multi":
+					e = GenEntry(sealed, MkDomain([4]byte{7, 0, 0, 0}, uint64(i)), uint64(w+1)*7_000_000+uint64(i))
+				default:
+					continue
+				}
+				if o.Kind == "atts" || o.Kind == "multi" {
+					at := ch.Pick(len(o.Entries)+1, 0)
+					o.Entries = append(o.Entries[:at], append([]Entry{e}, o.Entries[at:]...)...)
+				} else {
+					o.Entries = []Entry{e}
+				}
 			}
 		}
 		for _, o := range work[w] {
